@@ -451,36 +451,61 @@ func (c *FnCtx) Discharge(sc *SolverCfg) {
 // It is used by the check for a handful of undecided obligations only: a verdict "timeout"/"unknown" that comes
 // from a loaded machine must not be reported as a violation, while a tree that really breaks a contract usually
 // leaves many obligations undecided or yields models, and is not delayed by this.
+var (
+	retryMu sync.Mutex
+	retryN  int
+)
+
 func (c *FnCtx) Retry(sc *SolverCfg, o *Obligation, factor float64) bool {
 	long := *sc
 	long.TimeoutS = sc.TimeoutS * factor
-	f := filepath.Join(sc.Dir, fmt.Sprintf("%s.retry.%s.smt2", smtName(c.Key), smtName(o.Kind+"."+o.Label)))
-	os.WriteFile(f, []byte(c.smtFor([]*Obligation{o}, false)), 0o644)
-	r := long.race(f)
-	os.Remove(f)
-	if r.verdict == "unsat" {
-		o.Verdict, o.Solver, o.TimeS = "unsat", r.solver+"(retry)", o.TimeS+r.time
-		return true
-	}
-	if r.verdict == "sat" {
-		return false
-	}
+	retryMu.Lock()
+	retryN++
+	n := retryN
+	retryMu.Unlock()
+	// the whole goal and its conjuncts are attempted at the same time: the obligation is decided when the whole
+	// goal is refuted-free (unsat) or every conjunct is
+	var wg sync.WaitGroup
+	var whole solveResult
+	wg.Add(1)
+	go func() {
+		defer wg.Done()
+		f := filepath.Join(sc.Dir, fmt.Sprintf("%s.retry%d.%s.smt2", smtName(c.Key), n, smtName(o.Kind+"."+o.Label)))
+		os.WriteFile(f, []byte(c.smtFor([]*Obligation{o}, false)), 0o644)
+		whole = long.race(f)
+		os.Remove(f)
+	}()
 	parts := SplitTerm(o.Goal)
 	if len(parts) <= 1 || len(parts) > 64 {
+		parts = nil
+	}
+	res := make([]solveResult, len(parts))
+	for i, g := range parts {
+		wg.Add(1)
+		go func(i int, g Term) {
+			defer wg.Done()
+			fp := filepath.Join(sc.Dir, fmt.Sprintf("%s.retry%d.%s.part%d.smt2", smtName(c.Key), n, smtName(o.Kind+"."+o.Label), i))
+			os.WriteFile(fp, []byte(c.smtFor([]*Obligation{{PC: o.PC, Goal: g}}, false)), 0o644)
+			res[i] = long.race(fp)
+			os.Remove(fp)
+		}(i, g)
+	}
+	wg.Wait()
+	if whole.verdict == "unsat" {
+		o.Verdict, o.Solver, o.TimeS = "unsat", whole.solver+"(retry)", o.TimeS+whole.time
+		return true
+	}
+	if whole.verdict == "sat" || len(parts) == 0 {
 		return false
 	}
 	var tot float64
-	for i, g := range parts {
-		fp := filepath.Join(sc.Dir, fmt.Sprintf("%s.retry.%s.part%d.smt2", smtName(c.Key), smtName(o.Kind+"."+o.Label), i))
-		os.WriteFile(fp, []byte(c.smtFor([]*Obligation{{PC: o.PC, Goal: g}}, false)), 0o644)
-		rr := long.race(fp)
-		os.Remove(fp)
+	for _, rr := range res {
 		tot += rr.time
 		if rr.verdict != "unsat" {
 			return false
 		}
 	}
-	o.Verdict, o.Solver, o.TimeS = "unsat", "split(retry)", o.TimeS+r.time+tot
+	o.Verdict, o.Solver, o.TimeS = "unsat", "split(retry)", o.TimeS+tot
 	return true
 }
 
